@@ -1,11 +1,17 @@
 """C03 — dump emits the documented wire encoding, JSON-safe, fresh and side-effect free."""
 from __future__ import annotations
 
+import contextlib
 import copy
+import datetime as dt
 import json
+import os
+import random
+import time
 
 from harness import common as C
 from harness import gen, model, ref
+from harness.model import T
 
 OPTS = dict(meta_keys=['key_transform_with_dump', 'marshal_date_time_as', 'skip_defaults', 'recursive'],
             leaves=gen.LEAVES_DEFAULT + ['bytes', 'bytearray', 'none'])
@@ -17,7 +23,251 @@ def make_case(rng, i):
     return ty
 
 
-def run_case(ctx, i, ty, rng, reqs, pend):
+# --------------------------------------------------------------------------- local time zone (a process setting)
+# marshal_date_time_as = TIMESTAMP writes naive datetimes and dates as epoch seconds of *local* time, so the zone of the
+# process is part of the input.  POSIX rule strings only (no tz database needed); every DST switch is at 02:00 / 03:00,
+# so local midnight always exists exactly once.
+TZS = ['EST5EDT,M3.2.0,M11.1.0', 'IST-5:30', 'NZST-12NZDT,M9.5.0,M4.1.0/3', 'CET-1CEST,M3.5.0,M10.5.0/3', 'HST10',
+       'LINT-14', '<-03>3', 'NST3:30NDT,M3.2.0,M11.1.0']
+
+
+@contextlib.contextmanager
+def local_tz(tz):
+    """run the block with the process's local time zone set to `tz` (None: leave it alone); always restored"""
+    if tz is None:
+        yield
+        return
+    old = os.environ.get('TZ')
+    os.environ['TZ'] = tz
+    time.tzset()
+    try:
+        yield
+    finally:
+        if old is None:
+            os.environ.pop('TZ', None)
+        else:
+            os.environ['TZ'] = old
+        time.tzset()
+
+
+class LocalRef(ref.RefEncoder):
+    """the documented TIMESTAMP encoding of a `date`, derived without datetime.timestamp(): the epoch seconds of 00:00
+    *local* time of that day (C mktime) - the number date.fromtimestamp maps back to the day, and the number a naive
+    datetime at midnight of that day is written as"""
+
+    def enc(self, v, ts, cfg):
+        if ts and isinstance(v, dt.date) and not isinstance(v, dt.datetime) and 1902 <= v.year <= 2100:
+            n = int(time.mktime((v.year, v.month, v.day, 0, 0, 0, 0, 0, -1)))
+            assert dt.date.fromtimestamp(n) == v, (v, n)          # self-check of the reference
+            return n
+        return super().enc(v, ts, cfg)
+
+
+# --------------------------------------------------------------------------- CatchAll mappings
+CA_KEYS = ['extra_', 'Unknown', 'x-', 'k ']
+CA_OPTS = dict(leaves=gen.LEAVES_DEFAULT + ['bytes', 'bytearray', 'none'], allow_enum=False, allow_literal=False,
+               allow_nt=False, allow_td=False, allow_cls=False, allow_tagged_union=False)
+
+
+def json_value(rng, depth):
+    """what a JSON document carries under an unknown key"""
+    r = rng.random()
+    if depth <= 0 or r < 0.35:
+        return rng.choice([None, True, False, 0, -3, 2.5, '', 'txt', '2020-01-01', 10 ** 20])
+    if r < 0.7:
+        return [json_value(rng, depth - 1) for _ in range(rng.randint(0, 3))]
+    return {rng.choice(['a', 'b c', 'Key', 'k_1', 'zz']): json_value(rng, depth - 1) for _ in range(rng.randint(0, 3))}
+
+
+def catch_all_values(rng, t, built, size):
+    """the mapping held by a CatchAll field of class node `t`: unknown JSON members as they came in (scalars, lists,
+    objects, nested) and values the program put there itself (any supported runtime type at any container position,
+    instances of the dataclasses below `t`)"""
+    below = {}
+    for _n, ft in t['ftys']:
+        model._collect_infos(ft, below)
+    out = {}
+    for j in range(rng.choice([0, 1, 1, 2, 3])):
+        key = rng.choice(CA_KEYS) + str(j)
+        r = rng.random()
+        if r < 0.35:
+            out[key] = json_value(rng, rng.choice([0, 1, 2, 3]))
+        elif r < 0.85 or not below or size <= 0:
+            vt = gen.gen_type(rng, rng.choice([0, 1, 1, 2]), gen.Opts(**CA_OPTS))
+            out[key] = gen.gen_value(rng, vt, built)
+        else:
+            node = below[rng.choice(sorted(below))]
+            v = gen.gen_instance(rng, node, built, size - 1)
+            out[key] = rng.choice([v, [v], {'in': v}])
+    return out
+
+
+def add_catch_all(rng, ty, p_nested=0.3):
+    """give the root class (and some nested ones) a CatchAll field: without default, `= None`, or default_factory=dict"""
+    infos = {}
+    model._collect_infos(ty, infos)
+    for name, node in infos.items():
+        if node is not ty and rng.random() >= p_nested:
+            continue
+        info = node['info']
+        if any(f.get('catch_all') for f in info['fields']):
+            continue
+        fname = next(n for n in ('rest_items', 'extras_fld', 'other_stuff') if n not in {f['name'] for f in info['fields']})
+        cf = {'name': fname, 'catch_all': True}
+        kind = rng.choice(['nodefault', 'none', 'dict'])
+        if kind == 'nodefault':
+            idx = next((i for i, f in enumerate(info['fields']) if f.get('dflt') is not None), len(info['fields']))
+            info['fields'].insert(idx, cf)
+        else:
+            cf['dflt'] = ['lit', None] if kind == 'none' else ['dict']
+            cf['factory'] = kind == 'dict'
+            info['fields'].append(cf)
+        node['ftys'].append([fname, T('any')])
+    return ty
+
+
+def make_catch_all_case(rng):
+    o = gen.Opts(**OPTS)
+    return add_catch_all(rng, gen.gen_cls(rng, rng.choice([0, 1, 1, 2]), o))
+
+
+# --------------------------------------------------------------------------- histories: nested classes used on their own first
+TEMPORAL_OPTS = dict(OPTS, leaves=gen.LEAVES_DEFAULT + ['bytes', 'none'] + ['date', 'datetime'] * 4, defaults_prob=0.55)
+NEST_SHAPES = [lambda c: c, lambda c: T('list', c), lambda c: T('optional', c), lambda c: T('dict', T('str'), c),
+               lambda c: T('tuple', c, T('int')), lambda c: T('list', T('optional', c))]
+
+
+def _force_cascading_meta(rng, ty, p_ts=0.5):
+    """the root gets a Meta with at least one setting that documentedly cascades to nested classes"""
+    meta = dict(ty['info'].get('meta') or {})
+    r = rng.random()
+    if r < p_ts:
+        meta['marshal_date_time_as'] = 'TIMESTAMP'
+    elif r < p_ts + 0.3:
+        meta['skip_defaults'] = True
+    else:
+        meta['marshal_date_time_as'] = 'TIMESTAMP'
+        meta['skip_defaults'] = True
+    if rng.random() < 0.85:
+        meta.pop('recursive', None)
+    ty['info']['meta'] = meta
+
+
+def _ensure_nested(rng, ty, o):
+    infos = {}
+    model._collect_infos(ty, infos)
+    if len(infos) > 1:
+        return
+    c = gen.gen_cls(rng, rng.choice([0, 0, 1]), o, nested=True)
+    used = {f['name'] for f in ty['info']['fields']}
+    fname = gen.field_name(rng, used)
+    idx = next((i for i, f in enumerate(ty['info']['fields']) if f.get('dflt') is not None), len(ty['info']['fields']))
+    ty['info']['fields'].insert(idx, {'name': fname})
+    ty['ftys'].append([fname, rng.choice(NEST_SHAPES)(c)])
+
+
+def effective_table(ty):
+    """class name -> effective Meta when `ty` is dumped as the main class (documented cascade)"""
+    infos = {}
+    model._collect_infos(ty, infos)
+    own = model.own_meta(ty['info'])
+    cfg = ref.root_config(own)
+    return {n: (ref.effective_meta(own, None) if node is ty else ref.effective_meta(model.own_meta(node['info']), cfg))
+            for n, node in infos.items()}
+
+
+def standalone_first_candidates(ty):
+    """nested classes N whose stand-alone dump may precede the first dump of `ty` in a history.
+
+    Kept out (recorded finding `shared-nested-config-leak`, listed for C06 / C07, architectural: caches are keyed by class,
+    not by (class, config)): (a) an N that itself cascades a Meta to classes below it - their per-class binding would
+    survive into the dump of `ty`; (b) an N, or a class below it, whose dump keys under `ty` differ from the keys of the
+    stand-alone dump - the per-class key cache keeps the spelling of the first use."""
+    infos = {}
+    model._collect_infos(ty, infos)
+    under_root = effective_table(ty)
+    out = []
+    for name, node in infos.items():
+        if node is ty:
+            continue
+        alone = effective_table(node)
+        if len(alone) > 1 and ref.root_config(model.own_meta(node['info'])) is not None:
+            continue
+        same_keys = True
+        for n2 in alone:
+            ka = ref.KEY_FUNCS[alone[n2].get('key_transform_with_dump') or 'CAMEL']
+            kb = ref.KEY_FUNCS[under_root[n2].get('key_transform_with_dump') or 'CAMEL']
+            if any(ka(f['name']) != kb(f['name']) for f in infos[n2]['info']['fields']):
+                same_keys = False
+        if same_keys:
+            out.append(name)
+    return out
+
+
+def _has_temporal_sub(v):
+    import collections
+    import dataclasses
+    if isinstance(v, dt.date):
+        return type(v) not in (dt.date, dt.datetime)
+    if dataclasses.is_dataclass(v) and not isinstance(v, type):
+        return any(_has_temporal_sub(getattr(v, f.name)) for f in dataclasses.fields(v) if hasattr(v, f.name))
+    if isinstance(v, dict):
+        return any(_has_temporal_sub(k) or _has_temporal_sub(y) for k, y in v.items())
+    if isinstance(v, (list, tuple, set, frozenset, collections.deque)):
+        return any(_has_temporal_sub(y) for y in v)
+    return False
+
+
+def _standalone_instance(rng, node, built):
+    """the instance of a nested class that is dumped on its own first.  Kept out for now: values of proper subclasses of
+    date / datetime - the hook cached for the subclass on first sight survives the later TIMESTAMP re-binding of the class
+    (genuine defect of the unchanged library, /tmp/ag/A/findings/stale-subtype-hook-after-timestamp-bind.py)."""
+    for _ in range(4):
+        y = gen.gen_instance(rng, node, built)
+        if not _has_temporal_sub(y):
+            return y
+    subs, gen.SUBS = gen.SUBS, False
+    try:
+        return gen.gen_instance(rng, node, built)
+    finally:
+        gen.SUBS = subs
+
+
+def make_history_case(rng):
+    o = gen.Opts(**TEMPORAL_OPTS)
+    ty = gen.gen_cls(rng, rng.choice([1, 2, 2, 3]), o)
+    _ensure_nested(rng, ty, o)
+    infos = {}
+    model._collect_infos(ty, infos)
+    # most histories concentrate on the settings whose cascade does not go through the per-class key cache
+    if rng.random() < 0.7:
+        for node in infos.values():
+            if node['info'].get('wizard') == 'py':
+                node['info']['wizard'] = True
+            if node['info'].get('meta'):
+                node['info']['meta'].pop('key_transform_with_dump', None)
+    _force_cascading_meta(rng, ty)
+    cands = standalone_first_candidates(ty)
+    rng.shuffle(cands)
+    pre = cands[:rng.randint(1, len(cands))] if cands else []
+    return ty, pre
+
+
+def make_tz_case(rng):
+    o = gen.Opts(**TEMPORAL_OPTS)
+    ty = gen.gen_cls(rng, rng.choice([0, 1, 1, 2]), o)
+    if rng.random() < 0.8:
+        _force_cascading_meta(rng, ty, p_ts=0.8)
+    return ty
+
+
+def run_case(ctx, i, ty, rng, reqs, pend, tz=None, pre=(), kind='dump'):
+    """one case = (class model, history of stand-alone dumps of nested classes `pre`, instance, local time zone `tz`)"""
+    with local_tz(tz):
+        _run_case(ctx, i, ty, rng, reqs, pend, tz, pre, kind)
+
+
+def _run_case(ctx, i, ty, rng, reqs, pend, tz, pre, kind):
     try:
         built = model.Built(ty)
     except Exception as e:   # the generator produced an unbuildable class: a harness bug, not a finding
@@ -25,23 +275,43 @@ def run_case(ctx, i, ty, rng, reqs, pend):
         ctx.notes.setdefault('build_errors', []).append(repr(e)[:200])
         return
     try:
+        pre_insts = [_standalone_instance(rng, built.infos[n], built) for n in pre]
         x = gen.gen_instance(rng, ty, built)
         if not ctx.begin_case(i):
             return
         before = copy.deepcopy(x)
         case = {'ty': ty, 'inst': repr(x)[:400]}
-        # ---- implementation
+        if tz is not None:
+            case['tz'] = tz
         from dataclass_wizard import asdict
+        # ---- history: nested classes dumped on their own before the first dump of the main class
+        if pre:
+            case['standalone_first'] = [[n, repr(y)[:200]] for n, y in zip(pre, pre_insts)]
+        for n, y in zip(pre, pre_insts):
+            try:
+                exp_y = LocalRef(built.infos).enc_inst(y, None, None, None, top=True)
+            except (OverflowError, ValueError, OSError):
+                exp_y = None
+            try:
+                d_y = asdict(y)
+            except Exception as e:
+                if exp_y is not None:
+                    ctx.fail('dump:standalone-first', case, f'asdict of the nested class {n} on its own raised {e!r}', detail=dict(src=built.source))
+                continue
+            if exp_y is not None and not ref.same_typed(d_y, exp_y):
+                ctx.fail('dump:standalone-first', case, f'asdict({y!r:.200}) = {d_y!r} differs from the documented encoding {exp_y!r}',
+                         detail=dict(src=built.source))
+        # ---- implementation
         try:
             d = asdict(x)
             impl = {'ok': model.enc_d(d)}
         except Exception as e:
             d = None
             impl = {'err': type(e).__name__}
-        ctx.seen('dump', case, nontrivial=True)
+        ctx.seen(kind, case, nontrivial=True)
         # ---- oracle
         try:
-            exp = ref.RefEncoder(built.infos).enc_inst(x, None, None, None, top=True)
+            exp = LocalRef(built.infos).enc_inst(x, None, None, None, top=True)
             exp_err = None
         except (OverflowError, ValueError, OSError) as e:
             exp, exp_err = None, e       # timestamp of an out-of-range date (year 1 / 9999 in local time): encoding undefined
@@ -75,6 +345,19 @@ def run_case(ctx, i, ty, rng, reqs, pend):
         built.close()
 
 
+def _probe_tz(ctx):
+    """the zone switch must really take effect, or the dimension silently disappears"""
+    offs = []
+    for tz in TZS:
+        with local_tz(tz):
+            offs.append(time.localtime(1_600_000_000).tm_gmtoff)
+    with local_tz(None):
+        here = time.localtime(1_600_000_000).tm_gmtoff
+    ctx.notes['tz_offsets_s'] = dict(zip(TZS, offs))
+    if len(set(offs)) < len(TZS) - 1 or all(o == here for o in offs):
+        raise RuntimeError(f'time.tzset() has no effect here: {offs}')
+
+
 def run(ctx: C.Ctx):
     rng = ctx.rng
     gen.SUBS = True
@@ -82,13 +365,38 @@ def run(ctx: C.Ctx):
                 'ISO/TIMESTAMP × skip_defaults × recursive) with one conforming instance each; asdict output compared type-exactly '
                 'with the Lean model and with an independent reference encoder; plus json.dumps, to_json, aliasing and '
                 'side-effect monitors. Non-trivial = distinct (class model, instance).')
+    ctx.rule += (' Further dimensions: the local time zone of the process (a third of the stream and a TIMESTAMP-heavy family run '
+                 'under rotating non-UTC POSIX zones; date reference = C mktime of local midnight); CatchAll fields (no default / None '
+                 '/ default_factory) whose mapping holds JSON containers, every supported runtime type and nested instances; '
+                 'histories in which nested classes are dumped on their own before the first dump of a main class with a cascading Meta.')
     n = ctx.quick(1500, 20000)
     reqs, pend = [], []
+    _probe_tz(ctx)
     for i in range(n):
         if ctx.done(i):
             break
         ty = make_case(rng, i)
-        run_case(ctx, i, ty, rng, reqs, pend)
+        # the zone is a function of the case index only, so the seeded stream itself is the one of earlier versions
+        run_case(ctx, i, ty, rng, reqs, pend, tz=TZS[(i // 3) % len(TZS)] if i % 3 == 2 else None)
+    # ---- directed families; each case has its own RNG (seed, family, j), so a replay regenerates just that case
+    base = n
+    gen.CATCH_ALL_VALUES = catch_all_values
+    for fam, count in (('catch-all', ctx.quick(450, 6000)), ('standalone-first', ctx.quick(450, 6000)), ('local-tz', ctx.quick(350, 5000))):
+        for j in range(count):
+            idx = base + j
+            if ctx.done(idx):
+                break
+            if ctx.only is not None and ctx.only != idx:
+                continue
+            crng = random.Random(f'C03:{ctx.seed}:{fam}:{j}')
+            if fam == 'catch-all':
+                run_case(ctx, idx, make_catch_all_case(crng), crng, reqs, pend, tz=TZS[j % len(TZS)] if j % 4 == 3 else None, kind=fam)
+            elif fam == 'standalone-first':
+                ty, pre = make_history_case(crng)
+                run_case(ctx, idx, ty, crng, reqs, pend, tz=TZS[j % len(TZS)] if j % 4 == 3 else None, pre=pre, kind=fam)
+            else:
+                run_case(ctx, idx, make_tz_case(crng), crng, reqs, pend, tz=TZS[j % len(TZS)], kind=fam)
+        base += count
     if ctx.model_available:
         outs = ctx.driver.run(reqs)
         for (case, impl), o in zip(pend, outs):
